@@ -256,6 +256,28 @@ theorem cap_skip (s : St) :
     (skipClassAdRaw s).2.m.need ≤ max s.m.need 8 ∧ (skipClassAdRaw s).2.m.held ≤ max s.m.held 8 :=
   ⟨(skipClassAdRaw_facts s _ _ rfl).2.need, (skipClassAdRaw_facts s _ _ rfl).2.held⟩
 
+/-- **cap exceeded ⇒ the read FAILS** (not only "consumption is bounded"): with `cap > 0`,
+    * a plaintext string whose first `cap` buffered bytes hold no terminator is refused
+      (`sizeExceeded`) — it is not returned truncated;
+    * an encrypted-mode string announcing more than `cap` bytes is never returned, whatever follows;
+    * in the bounded ClassAd reader, once the running total has reached the cap, the next string —
+      expression, secret after a marker, MyType, TargetType — is refused without touching the
+      message (`sizeExceeded`, state unchanged), so the ad as a whole fails. -/
+theorem cap_exceeded_fails (cap : Nat) (hc : 0 < cap) :
+    (∀ (s : St) (pre rest : Bytes), s.enc = false → s.d.buf = pre ++ rest → pre.length = cap →
+        (∀ b ∈ pre, b ≠ 0) → (getStringMax cap s).1 = .error .sizeExceeded) ∧
+    (∀ (s : St) (len : Int) (s1 : St), s.enc = true → getInt32 s.call = (.ok len, s1) → (cap : Int) < len →
+        ∀ v, (getStringMax cap s).1 ≠ .ok v) ∧
+    (∀ (total : Nat) (s : St), cap ≤ total →
+        adString cap total s = (.error .sizeExceeded, s) ∧ adSecret cap total s = (.error .sizeExceeded, s)) :=
+  ⟨fun s pre rest henc hb hl hnz => getStringMax_plain_fails cap hc s pre rest henc hb hl hnz,
+   fun s len s1 henc hlen hbig => getStringMax_enc_fails cap hc s len s1 henc hlen hbig,
+   fun total s ht => adString_over_budget cap total hc ht s⟩
+
+/-- non-vacuity: cap 4 on the plaintext bytes "abcdef\0" fails; cap 8 returns the string -/
+example : isErr .sizeExceeded (getStringMax 4 { d := { buf := [97, 98, 99, 100, 101, 102, 0] } }).1 = true ∧
+    (getStringMax 8 { d := { buf := [97, 98, 99, 100, 101, 102, 0] } }).1.isOk = true := by decide
+
 /-- **cap honoured, token exchange** — identity strings and tokens are read under their limits
     (`AUTH_PW_MAX_NAME_LEN`, `AUTH_PW_MAX_TOKEN_LEN`). -/
 theorem cap_handshake (s : St) :
